@@ -4,6 +4,7 @@ import TomlVerif.Props.C03MoreNad
 import TomlVerif.Props.C03MoreTko
 import TomlVerif.Props.C03MoreGen
 import TomlVerif.Props.C03MoreGen2
+import TomlVerif.Props.C03MoreGen3
 import TomlVerif.Lemmas.Tiling03MoreOrdEx
 import TomlVerif.Lemmas.Tiling03MoreSemEx
 import TomlVerif.Lemmas.Tiling03MoreNadEx
@@ -20,7 +21,8 @@ import TomlVerif.Lemmas.Tiling03MoreComments
     Valid + same tree (flags, positions), no hypothesis on BOM / CR / final newline / spelling /
     values: `ordRunV` ⊆ `adjRun` (`T03_same_data_adjacent`) ⊆ `nadRun` (non-adjacent dotted keys:
     `T03_same_data_nonadjacent`), `adjRun` ⊆ `tkoRun` (`[t]` taking over an implicit table:
-    `T03_same_data_takeover`), both ⊆ `genRun` (`T03_same_data_general_class`).
+    `T03_same_data_takeover`), both ⊆ `genRun` (`T03_same_data_general_class`) ⊆ `genRun2` (headers through dotted-key
+    tables: `T03_same_data_general_class2`, C03MoreGen3).
     For every accepted document: `T03_cst_erases_to_doc`, `T03_comments_kept`; for every accepted
     value: `T03_value_same_data`.  False: `T03_same_data_statement`
     (`T03_same_data_counterexample`), `T03_same_plain_ordered_statement`; open:
